@@ -258,6 +258,10 @@ def placements(rng, templates, n):
         cands = donor_acceptor_atoms(ri, rj)
         if kind == "dist" and cands:
             a, b = rng.choice(cands)
+            if rng.random() < 0.3:
+                # very close to the cut-off, still 20-100 times the width of the undecided band (single precision
+                # rounds coordinates of a few hundred Angstroms by more than that)
+                delta = rng.choice([2e-5, 1e-4]) * rng.choice([-1, 1])
             r2 = place_distance(ri, rj, a, b, 4.0 + delta)
             tag = "dist%+g" % delta
         elif kind in ("angle0", "angle1") and cands:
